@@ -26,7 +26,7 @@ type C11Case struct {
 	TwinRaw   string     `json:"twinRaw"`
 	Placement string     `json:"placement"`
 	InheritNS bool       `json:"inheritNS,omitempty"` // the twin's encrypted plaintext relies on namespace declarations of the Response
-	Enc2      *h.EncSpec `json:"enc2,omitempty"` // second, independently drawn encryption for the twin\'s second assertion
+	Enc2      *h.EncSpec `json:"enc2,omitempty"`      // second, independently drawn encryption for the twin\'s second assertion
 }
 
 func keyCfg(mode string) h.KeyCfg { return keyCfgW(mode, "wide") }
